@@ -130,6 +130,11 @@ def judge(ctx, cases, chunk=20000, timeout=3000):
     ctx.traces += len(cases)
     ctx.cover['conformance_tlc_states'] = ctx.cover.get('conformance_tlc_states', 0) + st['states']
     ctx.cover['conformance_tlc_wall_s'] = round(ctx.cover.get('conformance_tlc_wall_s', 0) + st['wall'], 1)
+    rej = set(rejected)
+    from harness import canary
+    from checks import canaries
+    canary.probe(ctx, 'Conf_Eval', [c for i, c in enumerate(cases, 1) if i not in rej], canaries.evalcase,
+                 canary.by_cases('Conf_Eval', strip_case))
     return [cases[i - 1] for i in rejected]
 
 
@@ -194,7 +199,12 @@ class Session:
         return c
 
 
-def judge_sessions(ctx, sessions, timeout=3000):
+class _S:
+    def __init__(self, trace):
+        self.trace = trace
+
+
+def judge_sessions(ctx, sessions, timeout=3000, _canary=True):
     """returns list of (session index, failing event number)"""
     import json
     import os
@@ -202,6 +212,11 @@ def judge_sessions(ctx, sessions, timeout=3000):
     import tempfile
     if not sessions:
         return []
+    if _canary:
+        from harness import canary
+        from checks import canaries
+        canary.probe(ctx, 'Trace_Store', [s.trace for s in sessions], canaries.session,
+                     lambda trs: {si for si, _ in judge_sessions(canary.NullCtx(), [_S(t) for t in trs], timeout, _canary=False)}, k=8)
     fd, path = tempfile.mkstemp(prefix='verif_sessions_', suffix='.json')
     try:
         with os.fdopen(fd, 'w') as f:
